@@ -169,6 +169,16 @@ def wmc_spec_applies(nv, w, table):
     return True
 
 
+def fnum(x):
+    """a float of the driver's JSON (serde_json renders NaN / infinities as null)"""
+    return float("nan") if x is None else float(x)
+
+
+def close(x, e):
+    """|x - e| <= TOL, false for NaN / infinite x"""
+    return abs(fnum(x) - float(e)) <= TOL
+
+
 def classes(xs):
     first = {}
     return [first.setdefault(x, i) for i, x in enumerate(xs)]
@@ -197,7 +207,37 @@ def rand_budget(rng):
     return {"max_nodes": rng.randint(2, 80), "oracle": [rng.random() < 0.97 for _ in range(rng.randint(1, 80))]}
 
 
-def random_history(rng, nv, nops, budgeted=0.2, groups=True):
+def rand_prob(rng, boundary):
+    """numerator over 16 of an Independent probability; with `boundary` the values 0.0 and 1.0 (neg weight 0 /
+    pos weight 0: certain and impossible facts) are drawn with substantial frequency"""
+    r = rng.random()
+    if r < boundary / 2:
+        return 16
+    if r < boundary:
+        return 0
+    return rng.choice([1, 2, 3, 4, 5, 8, 11, 13, 15])
+
+
+def group_parts(rng, k):
+    """positive weights (numerators over 16) of an exclusive group of k members, summing to 1; often degenerate:
+    one member certain and the others impossible, or some member with weight 0"""
+    r = rng.random()
+    if r < 0.25:
+        parts = [0] * k
+        parts[rng.randrange(k)] = 16
+        return parts
+    cuts = sorted(rng.sample(range(1, 16), k - 1))
+    parts = [b - a for a, b in zip([0] + cuts, cuts + [16])]
+    if r < 0.45:       # move one member's mass to another: a zero-weight member
+        i, j = rng.sample(range(k), 2)
+        parts[j] += parts[i]
+        parts[i] = 0
+    return parts
+
+
+def random_history(rng, nv, nops, budgeted=0.2, groups=True, boundary=None):
+    if boundary is None:   # per history: a third without boundary values, a third with some, a third with many
+        boundary = rng.choice([0.0, 0.3, 0.7])
     order = list(range(nv))
     rng.shuffle(order)
     ops = []
@@ -207,8 +247,7 @@ def random_history(rng, nv, nops, budgeted=0.2, groups=True):
     if groups and nv >= 3 and rng.random() < 0.35:
         k = rng.randint(2, min(4, nv))
         members = rng.sample(range(nv), k)
-        cuts = sorted(rng.sample(range(1, 16), k - 1)) if k - 1 <= 15 else None
-        parts = [b - a for a, b in zip([0] + cuts, cuts + [16])]
+        parts = group_parts(rng, k)
         for v, p in zip(members, parts):
             group_of[v] = (p, 16)
 
@@ -219,7 +258,7 @@ def random_history(rng, nv, nops, budgeted=0.2, groups=True):
             p, q = group_of[v]
             ops.append(["var", v, p, q, 1, 1, 0])
         else:
-            p = rng.choice([1, 2, 3, 4, 5, 8, 11, 13, 15])
+            p = rand_prob(rng, boundary)
             ops.append(["var", v, p, 16, 16 - p, 16, None])
 
     def bud():
@@ -253,7 +292,7 @@ def random_history(rng, nv, nops, budgeted=0.2, groups=True):
             v = rng.choice(intro)
             if v in group_of:
                 continue
-            p = rng.choice([1, 4, 7, 9, 12])
+            p = rng.choice([0, 16]) if rng.random() < boundary else rng.choice([1, 4, 7, 9, 12])
             ops.append(["var", v, p, 16, 16 - p, 16, None])
             continue
         nh += 1
@@ -264,8 +303,8 @@ def group_history(rng, nv):
     """annotated-disjunction use: an exclusive group, its exactly-one constraint, formulas conjoined with it."""
     k = rng.randint(2, min(4, nv))
     members = rng.sample(range(nv), k)
-    cuts = sorted(rng.sample(range(1, 16), k - 1))
-    parts = [b - a for a, b in zip([0] + cuts, cuts + [16])]
+    parts = group_parts(rng, k)
+    boundary = rng.choice([0.0, 0.5])
     order = list(range(nv))
     rng.shuffle(order)
     ops = []
@@ -273,7 +312,7 @@ def group_history(rng, nv):
         if v in members:
             ops.append(["var", v, parts[members.index(v)], 16, 1, 1, 0])
         else:
-            p = rng.choice([2, 5, 8, 13])
+            p = rand_prob(rng, boundary)
             ops.append(["var", v, p, 16, 16 - p, 16, None])
     ops.append(["eo", members, None])          # handle 0
     nh = 1
@@ -349,7 +388,7 @@ def check_report(ctx, c, im, mo, stream, st):
             if hcodes[k] == 0 and applies[s]:
                 e = sw.wmc(s)
                 st["wmc_checked"] += 1
-                if abs(x - float(e)) > TOL:
+                if not close(x, e):
                     bad = {"what": "wmc differs from the truth-table weighted sum", "slot": k, "impl": x, "spec": str(e)}
                     break
     if bad is None and "grads" in im:
@@ -360,13 +399,20 @@ def check_report(ctx, c, im, mo, stream, st):
             for v in w:
                 e = sw.grad(s, v)
                 st["grad_checked"] += 1
-                if abs(gd.get(v, 0.0) - float(e)) > TOL:
-                    bad = {"what": "wmc_gradient differs from the truth-table derivative", "slot": k, "var": v,
+                if e != 0:
+                    st["grad_nonzero"] += 1
+                    if w[v][0] in (0, 1):
+                        st["grad_boundary"] += 1
+                # a variable missing from the implementation's map means derivative 0 (entries with |g| <= 1e-15 are omitted)
+                if not close(gd.get(v, 0.0), e):
+                    bad = {"what": "wmc_gradient differs from the truth-table derivative" +
+                                   ("" if v in gd else " (the variable is missing from the gradient map, i.e. reported as 0)"),
+                           "slot": k, "var": v, "pos_weight": str(w[v][0]), "neg_weight": str(w[v][1]),
                            "impl": gd.get(v, 0.0), "spec": str(e)}
                     break
             if bad:
                 break
-        if bad is None and any(abs(a - b) > 0 for a, b in zip(im["wmc"], im["wmc_after_grad"])):
+        if bad is None and any(not (fnum(a) == fnum(b)) for a, b in zip(im["wmc"], im["wmc_after_grad"])):
             bad = {"what": "wmc_gradient did not restore the weights"}
     if bad is not None:
         ctx.violation(c, bad)
@@ -399,7 +445,7 @@ def check_report(ctx, c, im, mo, stream, st):
             diff = "handle-equality classes differ: implementation %s, model %s" % (ih, mh)
         if diff is None:
             for k, (x, q) in enumerate(zip(im["wmc"], mwmc)):
-                if abs(x - q[0] / q[1]) > TOL:
+                if not close(x, Fraction(q[0], q[1])):
                     diff = "wmc of slot %d: implementation %r, model %s/%s" % (k, x, q[0], q[1])
                     break
         if diff is None and "models" in im and mmodels:
@@ -411,7 +457,7 @@ def check_report(ctx, c, im, mo, stream, st):
             for k, (a, b) in enumerate(zip(im["grads"], mgrads)):
                 gd = {int(v): x for v, x in a}
                 for v, q in b:
-                    if abs(gd.get(v, 0.0) - q[0] / q[1]) > TOL:
+                    if not close(gd.get(v, 0.0), Fraction(q[0], q[1])):
                         diff = "gradient of slot %d var %d: implementation %r, model %s/%s" % (k, v, gd.get(v, 0.0), q[0], q[1])
                         break
                 if diff:
@@ -436,11 +482,12 @@ def evaluate_reports(ctx, binpath, cases, stream):
     exprs = ["report %s %s %s" % (cN(c["nv"]), cops(c["ops"]), "true" if c.get("detail") else "false") for c in cases]
     model = ctx.run_model(SUB, REQ, exprs, chunk=max(1, min(40, (len(exprs) + vf.NPROC - 1) // vf.NPROC)))
     ctx.log("%s: model ran" % stream)
-    st = dict(viol=0, mis=0, handles=0, errs=0, budgeted=0, wmc_checked=0, grad_checked=0, max_nodes=0)
+    st = dict(viol=0, mis=0, handles=0, errs=0, budgeted=0, wmc_checked=0, grad_checked=0, grad_nonzero=0, grad_boundary=0, max_nodes=0)
     for c, im, mo in zip(cases, impl, model):
         check_report(ctx, c, im, mo, stream, st)
     ctx.stream(stream, cases=len(cases), handles=st["handles"], budgeted_ops=st["budgeted"], exhausted_ops=st["errs"],
-               wmc_vs_spec=st["wmc_checked"], gradient_vs_spec=st["grad_checked"], max_nodes=st["max_nodes"],
+               wmc_vs_spec=st["wmc_checked"], gradient_vs_spec=st["grad_checked"], gradient_nonzero=st["grad_nonzero"],
+               gradient_nonzero_at_probability_0_or_1=st["grad_boundary"], max_nodes=st["max_nodes"],
                impl_model_mismatches=st["mis"], spec_violations=st["viol"])
 
 
@@ -722,7 +769,7 @@ def run(ctx):
         nv = rng.choice([1, 2, 3, 3, 4, 4, 5, 6, 7, 8])
         nops = rng.randint(8, 40 if ctx.thorough else 28)
         ops = random_history(rng, nv, nops)
-        cases.append({"mode": "report", "nv": nv, "ops": ops, "detail": i % 3 == 0})
+        cases.append({"mode": "report", "nv": nv, "ops": ops, "detail": i % 2 == 0})
     for i in range(n // 5):
         nv = rng.choice([3, 4, 5, 6])
         cases.append({"mode": "report", "nv": nv, "ops": group_history(rng, nv), "detail": True})
